@@ -19,6 +19,9 @@ pub enum Pipe {
   SubscribeOnObserveOn,
   /// `observe_on(..).tap(first item: sleep 1 ms)`: a consumer that is slow at its first item
   ObserveOnSlowFirst,
+  /// `flat_map(|x| just(x).observe_on(..))`: the hand-over to a worker inside an inner pipeline - the last
+  /// inner completes on its worker while the outer completes on the emitting thread
+  FlatMapObserveOn,
 }
 
 fn build(p: Pipe, src: Observable<'static, i64>) -> Observable<'static, i64> {
@@ -33,6 +36,7 @@ fn build(p: Pipe, src: Observable<'static, i64>) -> Observable<'static, i64> {
     Pipe::SubscribeOnMap => src.subscribe_on(nt()).map(|x| x),
     Pipe::SubscribeOnTake1 => src.subscribe_on(nt()).take(1),
     Pipe::SubscribeOnObserveOn => src.subscribe_on(nt()).observe_on(nt()),
+    Pipe::FlatMapObserveOn => src.flat_map(move |x| observables::just(x).observe_on(schedulers::new_thread_scheduler())),
     Pipe::ObserveOnSlowFirst => src.observe_on(nt()).tap(
       |x: i64| {
         if x == 1 {
@@ -158,7 +162,10 @@ pub fn pipe_scn_gaps(p: Pipe, script: Vec<Emit<i64>>, gaps: Vec<u64>, threaded: 
       }
       // one worker thread, not an emitting thread
       let emitters: Vec<usize> = causes.m.lock().unwrap().iter().map(|c| c.0).collect();
-      let mut tids: Vec<usize> = ev.iter().map(|x| x.tid).collect();
+      // (inside a flat_map the completion may come from the thread on which the outer source completed:
+      // the thread clauses speak about the items there)
+      let in_flat_map = matches!(p, Pipe::FlatMapObserveOn);
+      let mut tids: Vec<usize> = ev.iter().filter(|x| !in_flat_map || matches!(x.k, EvK::Next(_))).map(|x| x.tid).collect();
       tids.dedup();
       tids.sort();
       tids.dedup();
@@ -336,6 +343,11 @@ pub fn scenarios() -> Vec<Scn> {
     s.cfg.max_steps = 200_000;
     v.push(s);
   }
+  // observe_on inside a flat_map inner pipeline (one item: the order between inners is not fixed)
+  for threaded in [false, true] {
+    v.push(pipe_scn(Pipe::FlatMapObserveOn, vec![N(1), C], threaded, false, Some(2), Some(3)));
+  }
+  v.push(pipe_scn(Pipe::FlatMapObserveOn, vec![N(1), E(7)], false, false, None, Some(2)));
   // a long quiet period in the middle of the stream (one minute of virtual time): the worker that has
   // delivered the first item is still there for the second
   for p in [Pipe::ObserveOn, Pipe::ObserveOnTwice, Pipe::SubscribeOnObserveOn] {
